@@ -26,7 +26,7 @@ def run_check(pid, patch, tier="quick"):
     return verdict, detail
 
 for pid in sys.argv[1:]:
-    for k in range(1, 13):
+    for k in range(int(os.environ.get("SEED_FROM", "1")), 20):
         src = os.environ.get("SEEDROOT", "/tmp/seed") + f"/{pid}/out/change_{k}"
         if not os.path.exists(f"{src}/patch.diff"):
             continue
